@@ -287,10 +287,37 @@ class Event:
         return f"Event({self.kind} {self.name} @{self.func}:{self.line})"
 
 
+ROOTS = ("GW", "TR", "PR", "TASKS", "S", "P", "OTA")
+PATH_FACTS = ("validated", "enumeq", "member", "subtype_of", "canonical", "encodedof", "encoded_canonical", "keyeq")
+
+
+def rooted(key) -> bool:
+    """Does this value key denote (part of) long-lived gateway state (as opposed to a temporary)?"""
+    if isinstance(key, tuple):
+        if len(key) >= 2 and key[0] == "root" and key[1] in ROOTS:
+            return True
+        if key and key[0] == "global":
+            return True
+        return any(rooted(k) for k in key if isinstance(k, tuple))
+    return False
+
+
+def protected(fact) -> bool:
+    """Facts that identify a path for the rules: never dropped by the join of similar paths."""
+    tag = fact[0]
+    if tag in PATH_FACTS:
+        return True
+    if tag in ("in", "notin"):
+        return rooted(fact[2]) or rooted(fact[1])
+    if tag in ("truthy", "falsy", "isnone", "notnone"):
+        return rooted(fact[1])
+    return False
+
+
 class State:
     """Abstract state along one path."""
 
-    __slots__ = ("mem", "facts", "events", "stack", "counter", "handling", "notes", "frames", "roots", "evhash")
+    __slots__ = ("mem", "facts", "events", "stack", "counter", "handling", "notes", "frames", "roots", "evhash", "pfacts")
 
     def __init__(self):
         self.mem: Dict[Tuple, V] = {}
@@ -303,6 +330,7 @@ class State:
         self.frames: Tuple = ()
         self.roots: Dict[str, V] = {}
         self.evhash = 0
+        self.pfacts: frozenset = frozenset()
 
     def copy(self) -> "State":
         s = State.__new__(State)
@@ -316,6 +344,7 @@ class State:
         s.frames = tuple(dict(f) for f in self.frames)
         s.roots = self.roots
         s.evhash = self.evhash
+        s.pfacts = self.pfacts
         return s
 
     def fresh(self, prefix="o") -> str:
@@ -324,16 +353,20 @@ class State:
 
     def add_fact(self, *facts) -> None:
         self.facts = self.facts | frozenset(facts)
+        prot = [f for f in facts if protected(f)]
+        if prot:
+            self.pfacts = self.pfacts | frozenset(prot)
 
     def drop_facts(self, pred) -> None:
         self.facts = frozenset(f for f in self.facts if not pred(f))
+        self.pfacts = frozenset(f for f in self.pfacts if not pred(f))
 
     def has(self, fact) -> bool:
         return fact in self.facts
 
     def emit(self, ev: Event) -> None:
         self.events = self.events + (ev,)
-        self.evhash = hash((self.evhash, ev.sig()))
+        self.evhash = hash((self.evhash, ev.sig(), self.pfacts))
 
     def fingerprint(self):
         return (
